@@ -1239,9 +1239,12 @@ def oracle_wide(ctx, rng, nprng, quick):
                      dict(P, a=lst(apos), b=lst(b), bins=bins))
         try:
             with quiet():
-                g1 = fin(ca.mutual_information(tau_max=tm, estimator="gauss", lag_mode="all"))
+                g1raw = np.asarray(ca.mutual_information(tau_max=tm, estimator="gauss", lag_mode="all"), dtype=float)
+                g1 = fin(g1raw)
                 g2 = fin(c2.mutual_information(tau_max=tm, estimator="gauss", lag_mode="all"))
-            well = np.abs(g1) < 3.0
+            # an exactly collinear pair (r = +-1, estimate inf) is as ill-conditioned as r^2 >= 0.9975:
+            # `fin` would turn it into 0 and make it look well-conditioned (false alarm met in round 4)
+            well = np.isfinite(g1raw) & (np.abs(g1) < 3.0)
             if not close(np.where(well, g2, 0), np.where(well, g1, 0), 1e-4):
                 ctx.fail({"kind": "coupling", "method": "mutual_information", "estimator": "gauss",
                           "check": "affine", "input_class": "power-of-two scale"},
